@@ -109,6 +109,14 @@ func (o *Out) Case(req, obs string) {
 	fmt.Fprintf(o.w, "REQ %s\nOBS %s\n", req, obs)
 }
 
+// Flush writes buffered cases to the file (call it after a case that hit a liveness bound, so that the evidence survives
+// if the run is stopped from outside).
+func (o *Out) Flush() {
+	o.mu.Lock()
+	o.w.Flush()
+	o.mu.Unlock()
+}
+
 // Count increments a named counter reported in the evidence (input distribution, branches hit).
 func (o *Out) Count(key string) { o.Add(key, 1) }
 
